@@ -100,6 +100,17 @@ def real_cfgs(tier):
                                 Tend=0.3 if prob != 'lorenz' else 0.1, checks=('protocol',), post_checks=REAL_POST, max_blocks=5000, max_macro=600,
                             )
                         )
+    # the shipped Adaptivity with `avoid_restarts` (a step above the tolerance may get extra iterations instead of a
+    # restart when the contraction-factor extrapolation says so): the acceptance clause is judged on what is observed
+    for prob, mu_tols in (('vdp', (1e-5, 1e-6, 1e-7)), ('lorenz', (1e-5, 1e-6)), ('dahlquist', (1e-6,))):
+        for tol in mu_tols if tier == 'thorough' else mu_tols[-2:]:
+            for P in (1, 2):
+                out.append(
+                    block.default_cfg(
+                        P=P, K=4, jac=False, factory='vf.env.realruns:make', real={'estimator': 'embedded', 'problem': prob, 'tol': tol, 'limiter': {'avoid_restarts': True}, 'restarting': {'max_restarts': 10}},
+                        Tend=0.3 if prob != 'lorenz' else 0.1, checks=('protocol',), post_checks=REAL_POST, max_blocks=5000, max_macro=600,
+                    )
+                )
     return out
 
 
